@@ -13,6 +13,7 @@ history : operation sequences on one connection (harness tables, and a Beancount
 import pickle
 import re
 
+from decimal import Decimal as D
 from hypothesis import strategies as st
 
 import beanquery
@@ -317,6 +318,11 @@ LEDGER_STATEMENTS = [
     ('SELECT count(*) AS n FROM #postings WHERE meta(%s) IS NULL', [['when'], ['ref'], ['nope']]),
     ("JOURNAL 'Food' AT units", [None]),
     ('JOURNAL AT units', [None]),
+    # untyped operands (metadata values) against a placeholder bound to values of different types in turn: the implicit
+    # cast belongs to one compilation, not to the parsed statement
+    ("SELECT account, entry_meta('ref') = %s AS q, entry_meta('amount') > %s AS g FROM #postings", [['A-1', 10], [D('42'), D('10.5')], [7, '1']]),
+    ("SELECT account, any_meta('amount') + %s AS v FROM #postings WHERE entry_meta('when') IS NOT NULL OR any_meta('amount') < %s",
+     [[1, D('11')], [D('0.5'), 11], [2, D('1e2')]]),
 ]
 import datetime  # noqa: E402
 LEDGER_STATEMENTS[1] = ('SELECT account, balance, position, balance WHERE date >= %s',
